@@ -41,6 +41,7 @@ func init() {
 	contextFunctions[symbols.NT_PathExprFilterWithAbbreviatedPath] = execAbbreviatedRelativeLocationPath
 	contextFunctions[symbols.NT_AxisName] = execAxisName
 	contextFunctions[symbols.NT_AbbreviatedStepParent] = execAbbreviatedStepParent
+	contextFunctions[symbols.NT_AbbreviatedStepSelf] = execAbbreviatedStepSelf
 	contextFunctions[symbols.NT_AbbreviatedAxisSpecifier] = execAbbreviatedAxisSpecifier
 	contextFunctions[symbols.NT_AbbreviatedAbsoluteLocationPath] = execAbbreviatedAbsoluteLocationPath
 	contextFunctions[symbols.NT_AbbreviatedRelativeLocationPath] = execAbbreviatedRelativeLocationPath
@@ -527,11 +528,22 @@ func execAxisName(context *exprContext, expr *grammar.Grammar) error {
 	case "preceding-sibling":
 		result = selectPrecedingSibling(nodeSet)
 	default: // self
-		return nil
+		result = selectSelf(nodeSet)
 	}
 
 	context.result = result
 
+	return nil
+}
+
+func execAbbreviatedStepSelf(context *exprContext, expr *grammar.Grammar) error {
+	nodeSet, ok := context.result.(NodeSet)
+
+	if !ok {
+		return errQueryNonNodeset
+	}
+
+	context.result = selectSelf(nodeSet)
 	return nil
 }
 
